@@ -29,7 +29,15 @@ def run_rules(prop: str, root: Path) -> tuple[Report, Ctx]:
     ctx = Ctx(index)
     rep = Report(prop, index)
     mod = importlib.import_module(f"sa.rules.{prop.lower()}")
-    mod.check(rep, ctx)
+    try:
+        mod.check(rep, ctx)
+    except AnalysisError as exc:
+        # obligations already found violated are verdicts of their rules and
+        # stay valid; the rest of the analysis could not be carried out
+        if not rep.violations:
+            raise
+        rep.analysis_error = str(exc)           # type: ignore[attr-defined]
+        return rep, ctx
     rep.check_minima()
     return rep, ctx
 
@@ -128,6 +136,9 @@ def main(argv: list[str] | None = None) -> int:
         f = res["known_keys"][o.key]
         print(f"KNOWN-FINDING: property={prop} {o.rule} {o.instance} at "
               f"{o.file} ({o.func}): {f.get('what', o.detail)}")
+    if getattr(rep, "analysis_error", None):
+        print(f"  NOTE the analysis stopped after the violation(s) below: "
+              f"{rep.analysis_error}")      # type: ignore[attr-defined]
     for n, o in enumerate(res["new"], 1):
         rc = 1
         print(f"  VIOLATED {o.rule} [{o.instance}] {o.file}:{o.line} "
